@@ -1,5 +1,6 @@
 import Driver.OpsC15
 import TongoModel.WalletMsg
+import TongoModel.WalletInt
 /-! Line handlers for property C14 (wallet message bodies, signatures, decoding). -/
 namespace Driver
 open Tongo Tongo.Wallet Tongo.CellFmt
@@ -66,7 +67,54 @@ def cellOutcome (r : Outcome Cell) : String :=
 /-- sign parameter of the model: the harness supplies the Ed25519 signature of the digest -/
 def fixedSign (sig : List UInt8) : List UInt8 → List UInt8 → List UInt8 := fun _ _ => sig
 
+def optCellArg (s : String) : Option (Option Cell) := if s == "-" then some none else (cellArg s).map some
+
+/-- a comment: `-` followed by the hex of its bytes -/
+def commentArg (s : String) : Option (List UInt8) :=
+  if s == "-" then some [] else if s.startsWith "-" then Tongo.Hex.decode (s.drop 1).toString else none
+
+def optHashOut : Option Cell → String
+  | none => "-"
+  | some c => hashOut c
+
+def intMsgOut (m : IntMsg) : String :=
+  let dest := match m.dest with
+    | some (wc, a) => s!"{wc}:{hexOut (Tongo.Bits.bitsToBytes a)}"
+    | none => "none"
+  let b (x : Bool) := if x then "1" else "0"
+  s!"ok {b m.bounce} {dest} {m.amount} {b m.hasInit} {optHashOut m.init.code} {optHashOut m.init.data} {hashOut m.body}"
+
 def opsC14 : List (String × Handler) := [
+  -- m.int <kind s|m|d> <amount> <wc> <addrhex> <bounce> <mode> <-commenthex> <body|-> <code|-> <data|->
+  --   ToInternal + tlb.Marshal of SimpleTransfer / Message / ContractDeploy: "ok <mode> <canonical internal message>"
+  ("m.int", fun
+    | [kind, amount, wc, addr, bounce, mode, comment, body, code, data] =>
+      match amount.toNat?, wc.toInt?, hexArg addr, mode.toNat?, commentArg comment, optCellArg body, optCellArg code, optCellArg data with
+      | some amount, some wc, some addr, some mode, some comment, some body, some code, some data =>
+        let dest : Address := { workchain := wc, hash := addr }
+        let m : Outcome OutMsg :=
+          if kind == "s" then .ok (simpleTransfer amount dest comment (bounce == "1"))
+          else if kind == "m" then
+            .ok { bounce := bounce == "1", dest := dest, amount := amount, body := body, code := code, data := data, mode := mode }
+          else if kind == "d" then contractDeploy sha256 wc code data body amount
+          else .err "kind"
+        match m.bind (fun m => (internalMsg m).bind fun c => .ok (m.mode, c)) with
+        | .ok (mode, c) => s!"ok {mode} {cellOut c}"
+        | .err _ => "err"
+        | .panic _ => "panic"
+      | _, _, _, _, _, _, _, _ => "bad-op"
+    | _ => "bad-op"),
+  -- m.intdec <msg>    tlb.Unmarshal of an internal message: bounce, destination, amount, init (code hash, data hash), body hash
+  ("m.intdec", fun
+    | [msg] =>
+      match cellArg msg with
+      | some msg =>
+        match decodeInternal msg with
+        | .ok m => intMsgOut m
+        | .err e => if e.startsWith "unmodelled" then "unmodelled" else "err"
+        | .panic _ => "panic"
+      | none => "bad-op"
+    | _ => "bad-op"),
   -- m.body <ver> <seed> <wc|_> <sub|_> <net|_> <op> <seqno> <validUntil> <rnd> <sig> <msgs> <specs>
   --   the signed body cell of createSignedMsgBodyCell: "ok <digest> <canonical body>"
   ("m.body", fun
